@@ -82,6 +82,9 @@ func cmdCheck(args []string) int {
 	}
 	prop, tierName := args[0], args[1]
 	fs.Parse(args[2:])
+	if strings.HasPrefix(prop, "T") {
+		*noEvidence = true // T.. = machinery self-tests, not properties
+	}
 	tier := 0
 	if tierName == "thorough" {
 		tier = 1
